@@ -41,7 +41,8 @@ theorem noh_L0_sie (p : Noh.P) (r t : ℝ) : Noh.L0.specific_internal_energy p r
 
 /-! … and ahead of it (leaf 1) -/
 
-theorem noh_L1_density (p : Noh.P) (r t : ℝ) :
+/-- ρ = ρ₀ (1 + |u₀| t / r)^(k-1); r ≠ 0 so that `1 + |u₀| t / r` and `(r + |u₀| t) / r` are the same number -/
+theorem noh_L1_density (p : Noh.P) (r t : ℝ) (hr : r ≠ 0) :
     Noh.L1.density p r t = p.rho0 * (1 + |p.u0| * t / r) ^ (p.geometry - 1) := by
   simp only [epv_leaf] <;> epv_hydro_closed
 
